@@ -34,12 +34,18 @@ type PDB struct {
 	Sel      *map[string]string
 	Allowed  int32
 	Always   bool
+	// harness-only dimensions (the model must be independent of them)
+	IfHealthy     bool // UnhealthyPodEvictionPolicy = IfHealthyBudget written out
+	FullyBlocking bool // Spec.MaxUnavailable = 0 (only the scheduling simulation reads it)
+	Invalid       bool // selector that LabelSelectorAsSelector rejects: pdb.NewLimits fails
 }
 
 type Pool struct {
 	Name    string
 	Managed bool
 	ItsErr  bool
+	ItsErrKind string // "" generic, "unevaluated" = cloudprovider.UnevaluatedNodePoolError
+	Replicas   int64  // value of Spec.Replicas when Static
 	Its     []string
 	Static  bool
 	After   *int64
@@ -52,11 +58,13 @@ type Claim struct {
 	Deleting                             bool
 	Terminating, Consolidatable, Drifted *string // "True" | "False" | "Unknown"
 	TGP                                  bool
+	ExpireAfter                          *int64 // harness-only: Spec.ExpireAfter (feeds DisruptionCost, not candidacy)
 }
 
 type KNode struct {
 	Labels, Annos map[string]string
 	Deleting      bool
+	NoProviderID  bool // harness-only: Spec.ProviderID empty; cluster state then ignores a managed Node
 }
 
 type SNode struct {
@@ -69,9 +77,10 @@ type SNode struct {
 }
 
 type Op struct {
-	Kind string // mark unmark nominate tick refresh
+	Kind string // mark unmark nominate tick refresh delnode delclaim
 	ID   string
 	Dt   int64
+	C, K bool // refresh: the described node has a NodeClaim / a Node that cluster state accepts
 }
 
 type World struct {
@@ -210,16 +219,32 @@ func (o Op) G() string {
 	case "tick":
 		return "(OTick " + gz(o.Dt) + ")"
 	case "refresh":
-		return "(ORefresh " + gs(o.ID) + ")"
+		return "(ORefresh " + gs(o.ID) + " " + kit.GBool(o.C) + " " + kit.GBool(o.K) + ")"
+	case "delnode":
+		return "(ODelNode " + gs(o.ID) + ")"
+	case "delclaim":
+		return "(ODelClaim " + gs(o.ID) + ")"
 	}
 	panic("op " + o.Kind)
 }
 
 func (w World) G() string {
 	f := map[string]string{"": "FNone", "pods": "FPods", "pdbs": "FPdbs", "pools": "FPools"}[w.Fault]
+	// a PDB with an unparsable selector makes pdb.NewLimits fail: for the model that is the FPdbs fault, and the
+	// object itself is not part of the model's PDB list
+	var pdbs []PDB
+	for _, b := range w.PDBs {
+		if b.Invalid {
+			if w.Fault == "" {
+				f = "FPdbs"
+			}
+			continue
+		}
+		pdbs = append(pdbs, b)
+	}
 	return fmt.Sprintf("(mkWorld %s %s %s %s %s %s %s)", gz(w.T0), gz(w.BM), f,
 		kit.GListOf(w.Pools, func(p Pool) string { return p.G() }),
-		kit.GListOf(w.PDBs, func(p PDB) string { return p.G() }),
+		kit.GListOf(pdbs, func(p PDB) string { return p.G() }),
 		kit.GListOf(w.Nodes, func(n SNode) string { return n.G() }),
 		kit.GListOf(w.Ops, func(o Op) string { return o.G() }))
 }
